@@ -52,7 +52,7 @@ def tokenize(text, file_name):
     tokens = []
     indent_stack = [""]
     line_number = 0
-    for line in text.splitlines():
+    for line in error.split_lines(text):
         line_number += 1
 
         # _tokenize_line splits the actual text into tokens.
